@@ -162,11 +162,15 @@ fn match_place(single: &Arc<Single>, is_job_activity: bool, activity_ctx: &Activ
                 has_activity_tag(*idx) && is_same_location && is_proper_time
             })
             .map(|(idx, place)| {
-                // NOTE search for the latest occurrence assuming that times are sorted
+                // NOTE prefer time where activity starts, otherwise search for the latest occurrence assuming that
+                // times are sorted
                 let time = place
                     .times
                     .iter()
-                    .rfind(|time| time.intersects(activity_ctx.route_start_time, &activity_ctx.time))
+                    .find(|time| time.to_time_window(activity_ctx.route_start_time).contains(activity_ctx.time.start))
+                    .or_else(|| {
+                        place.times.iter().rfind(|time| time.intersects(activity_ctx.route_start_time, &activity_ctx.time))
+                    })
                     .unwrap();
 
                 let time = match time {
